@@ -70,8 +70,19 @@ func c03Run(ci any) Result {
 		if (anyReal || anyNF) && !clash {
 			fail(fmt.Sprintf("some registered pattern matches %q but the answer is 404", c.Req.Path))
 		}
+		if c03CatchAllCovers(c.Routes, c.Req.Path) && !clash {
+			fail(fmt.Sprintf("a RouteNotFound catch-all covers %q but the router answered 404 itself", c.Req.Path))
+		}
 	case 'M':
 		tags = append(tags, "allow-checked")
+		if c03CatchAllCovers(c.Routes, c.Req.Path) && !clash {
+			// "... unless a custom not-found route covers the path, in which case that handler runs": for a
+			// RouteNotFound route that is literal text, or literal text followed by `*`, this is unambiguous
+			// (Lean: Router.Tree.find_covered).  A RouteNotFound route that sits on a parameter position while
+			// a more specific literal position also matches the path is NOT demanded here: the priority search
+			// ends at the literal position (static > param), whose 405 is the documented answer.
+			fail(fmt.Sprintf("a RouteNotFound catch-all covers %q but the router answered %d itself", c.Req.Path, first.Status))
+		}
 		if c.Req.Method == http.MethodOptions {
 			if first.Status != http.StatusNoContent {
 				fail(fmt.Sprintf("OPTIONS on a path served for other methods: status %d, want 204", first.Status))
@@ -115,6 +126,60 @@ func c03Run(ci any) Result {
 	}
 	res.Tags = tags
 	return res
+}
+
+// c03CatchAllCovers: some RouteNotFound route is exactly the path as literal text, or a literal prefix of the
+// path followed by `*`; or a RouteNotFound route matches the path and every other pattern that matches the
+// path is the very same pattern (so the search can only end at that position).
+func c03CatchAllCovers(routes []rRoute, path string) bool {
+	for _, r := range routes {
+		if r.Method != routeNotFound {
+			continue
+		}
+		toks, _, after := rNorm(r.Path)
+		if after || !rMatchConservative(toks, path) {
+			continue
+		}
+		only := true
+		for _, o := range routes {
+			ot, _, oa := rNorm(o.Path)
+			if oa || rTokKey(ot) != rTokKey(toks) && rMatchLiberal(ot, path) {
+				only = false
+			}
+		}
+		if only {
+			return true
+		}
+	}
+	for _, r := range routes {
+		if r.Method != routeNotFound {
+			continue
+		}
+		toks, _, after := rNorm(r.Path)
+		if after {
+			continue
+		}
+		lit := ""
+		ok, star := true, false
+		for i, t := range toks {
+			switch t.kind {
+			case 'l':
+				lit += string(t.c)
+			case 'a':
+				star = i == len(toks)-1
+				ok = ok && star
+			default:
+				ok = false
+			}
+		}
+		if !ok || strings.ContainsAny(lit, ":*\\") {
+			continue
+		}
+		if star && strings.HasPrefix(path, lit) || !star && path == lit {
+			return true
+		}
+	}
+	return false
 }
 
 func c03Gen(r *rand.Rand, tier string) []any {
